@@ -201,6 +201,10 @@ def main(ck):
                 key = 'nonconforming-result:%s:%s:%s' % (shape, why.split(' ')[0].rstrip(':'), culprit)
                 if shape == 'nested' and (why.startswith('data columns') or why.startswith('components')):
                     key = 'nested-expression:result-columns-differ-from-components'
+                if shape == 'nested' and why.startswith('null') and c.get('max_meas', 0) > 1 and len(c.get('meas', [])) == 1:
+                    # several inner measures, one in the result: the transpiler names every inner measure after it (known family);
+                    # the surviving column then holds another measure's values, nulls included
+                    key = 'nested-expression:inner-measures-collapsed-onto-the-single-output-measure'
                 ck.violation(key,
                              {'script': c['vtl'], 'structures': G.structures(c['env']), 'result': n, 'why': why,
                               'data': {k2: [[str(x) if x is not None else None for x in r] for r in d['rows']] for k2, d in c['env'].items()}},
